@@ -189,7 +189,10 @@ def oracle(sc, o):
     if last[5] != 0:
         bad.append((f"runs-left-open:{req['kind']}", f"after the failed {req['kind']} {last[5]} run(s) are still open"))
     caught = any(tk > t and y[1] == "caught" and y[2] == "FailedPause" for tk, y in zip(o["ticks"]["yields"], o["yields"]))
-    if not caught:
+    # the plan's own cleanup (a finally block) may fail with ANOTHER exception while FailedPause unwinds it -- e.g. an
+    # unstage() that raises: that exception then leaves the plan and the ladder of _run says 'fail' (C02), not 'abort'
+    other_failure = last[1].startswith("raise:") and last[1] not in ("raise:RunEngineInterrupted", "raise:FailedPause")
+    if not caught and not other_failure:
         for d in o["docs"]:
             if d["k"] == "stop" and d["run"] in o["engine_closed"] and d["exit"] != "abort":
                 bad.append((f"engine-closed-run-not-abort:{req['kind']}", f"run {d['run']} was closed by the engine's cleanup with exit_status {d['exit']!r} after a failed {req['kind']}"))
